@@ -238,8 +238,8 @@ func c16E2E(c C16Case, r evid.Result) evid.Result {
 		r.Violation = evid.Viol("C16/e2e-error", "docker logql query %v failed: %v", args, err)
 		return r
 	}
-	if len(rep.Calls) != 1 {
-		r.Violation = evid.Viol("C16/e2e-calls", "docker logql query %v made %d ContainerLogs calls, want 1", args, len(rep.Calls))
+	if len(rep.Calls) < 1 {
+		r.Violation = evid.Viol("C16/e2e-calls", "docker logql query %v made no ContainerLogs call", args)
 		return r
 	}
 	opts := rep.Calls[0].Opts
@@ -254,11 +254,15 @@ func c16E2E(c C16Case, r evid.Result) evid.Result {
 		return r
 	}
 	floor := func(ns int64) int64 { return ns / 1e9 } // instants are positive
-	if since < floor(lo0) || since > floor(lo1) {
+	// How the window is rounded to the daemon's whole seconds is C02's subject: here the
+	// resolved instants only have to be the ones asked for, give or take a few seconds of
+	// rounding on the safe (wider) side.
+	const slack = 5
+	if since < floor(lo0)-slack || since > floor(lo1) {
 		r.Violation = evid.Viol("C16/e2e-since", "args %v: daemon was asked since=%d, want within [%d, %d]", args, since, floor(lo0), floor(lo1))
 		return r
 	}
-	if until < floor(hiEnd0) || until > floor(hiEnd1) {
+	if until < floor(hiEnd0) || until > floor(hiEnd1)+slack {
 		r.Violation = evid.Viol("C16/e2e-until", "args %v: daemon was asked until=%d, want within [%d, %d]", args, until, floor(hiEnd0), floor(hiEnd1))
 		return r
 	}
